@@ -100,3 +100,60 @@ func c01Round5(c *Ctx, ix *Index) {
 			"the cached proposal can be kept for a block whose hash was not compared with the proposal's: the node answers with the results (and commits the state) of a different block")
 	}
 }
+
+// c11Round5 (seeds C11r5/14, 15).
+func c11Round5(c *Ctx) {
+	ix := c.P.BuildIndex()
+	// (1) The runtime descriptor a round is evaluated against (committee sizes, allowed stragglers, round timeout) is
+	// the per-epoch snapshot in the runtime state; it is replaced only at the epoch transition, where the committee
+	// and the round are replaced with it (seed 14: a mid-epoch runtime update rewrote it under a round in progress, and
+	// the round then finalized with fewer votes than its committee was set up to require).
+	n := c.WhoMayStore(ix, "C11.tally", "roothash/api.RuntimeState.Runtime", []string{
+		"consensus/cometbft/apps/roothash.(*Application).onRuntimeCommitteeChanged",
+		"consensus/cometbft/apps/roothash.(*Application).onNewRuntime",
+		"consensus/cometbft/apps/roothash.(*Application).InitChain",
+		"consensus/cometbft/apps/roothash/state/interop/", // test-vector generator: writes a fixture state, never runs in a node
+	}, "the descriptor that decides a round's thresholds changes only together with the committee, at the epoch transition")
+	c.Floor("C11.tally", n, 1, "stores into RuntimeState.Runtime")
+
+	// (2) The public ProcessCommitments adds nothing to the tally's decision: every error it returns is the error
+	// processCommitments returned. In particular it never answers "still waiting" on its own, which after the round
+	// timer expired would leave the round waiting forever (seed 15).
+	if fn := c.needFn("C11.outcome", "roothash/api/commitment.(*Pool).ProcessCommitments"); fn != nil {
+		inner := CallsTo(fn, "processCommitments", "roothash/api/commitment.(*Pool).processCommitments", "")
+		bad := ""
+		for _, r := range Returns(fn) {
+			ev := retErrVal(r)
+			if ev == nil {
+				continue
+			}
+			var walk func(v ssa.Value, d int) bool
+			walk = func(v ssa.Value, d int) bool {
+				if d > 6 {
+					return false
+				}
+				v = unspill(v)
+				if phi, ok := v.(*ssa.Phi); ok {
+					for _, e := range phi.Edges {
+						if !walk(e, d+1) {
+							return false
+						}
+					}
+					return true
+				}
+				if ex, ok := v.(*ssa.Extract); ok {
+					if call, ok := ex.Tuple.(*ssa.Call); ok && len(inner.Ins) == 1 && ssa.Instruction(call) == inner.Ins[0] {
+						return true
+					}
+				}
+				bad = vstrShort(v)
+				return false
+			}
+			if !walk(ev, 0) {
+				c.Fail("C11.outcome", fname(fn)+":returns the tally's own verdict", c.P.InstrPos(r), "ProcessCommitments returns an error of its own ("+bad+") instead of the verdict of processCommitments: a discrepancy or an expired timer can be answered with something else, e.g. 'still waiting', and the round then neither finalizes, nor starts discrepancy resolution, nor fails")
+				return
+			}
+		}
+		c.Check(len(inner.Ins) == 1, "C11.outcome", fname(fn)+":returns the tally's own verdict", c.P.Pos(fn.Pos()), "every error returned is the one processCommitments returned", "the call of processCommitments was not found in ProcessCommitments")
+	}
+}
